@@ -211,7 +211,7 @@ pub fn check_state(rep: &mut Report, ctx: &mut Ctx, st: &ObservableState, label:
 
 fn program(rng: &mut StdRng) -> ProgramData {
     ProgramData {
-        version: ["0.4.0", "1.2.3-rc\"1\"", "v\\x"][rng.gen_range(0..3)].to_string(),
+        version: ["0.4.0", "1.2.3-rc\"1\"", "v\\x", "0.4.0-\u{e9}t\u{e9}-\u{b5}s"][rng.gen_range(0..4)].to_string(),
         build_commit: "abc\ndef".to_string(),
         build_commit_date: "2026-01-01".to_string(),
         uptime_seconds: [0.0, 1.5, 86400.25, 1e9][rng.gen_range(0..4)],
